@@ -165,6 +165,17 @@ def core_scenarios():
     # more rows than one fetch batch (16): a row fetched early and a row fetched late are written in between
     out.append({"comp": "store", "cfg": {"initial": [["a", "k%02d" % i, 0] for i in range(20)]},
                 "threads": [[["data", "a"]], [["set", "a", "k00", 1], ["set", "a", "k19", 1]]]})
+    # a read that FAILS inside the store (the system id cannot be handed to SQLite: a lone surrogate) between other
+    # calls: the failure is that call's own result, the store goes on serving the others (no lock is left behind)
+    out.append({"comp": "store", "cfg": {"initial": [["a", "k", 1]]},
+                "threads": [[["data", "\ud800"], ["get", "a", "k"]], [["set", "a", "k", 2], ["list"]]]})
+    out.append({"comp": "store", "cfg": {"initial": [["a", "k", 1]]},
+                "threads": [[["get", "\ud800", "k"]], [["find", "k", 1]], [["data", "a"]]]})
+    # no cache: every call re-reads the file, and concurrent calls still see one consistent snapshot each
+    out.append({"comp": "textfile", "cfg": {"states": T_STATES, "conf": {"cache_enabled": False}},
+                "threads": [[["get", "alpha"]], [["get", "beta"]]]})
+    out.append({"comp": "textfile", "cfg": {"states": T_STATES, "conf": {"cache_enabled": False, "find_first_match": True}},
+                "threads": [[["find", "net:ip", "10.0.0.1"]], [["write", 1]], [["get", "gamma"]]]})
     # readers overlapping a rewrite: a reader, the writer, another reader (reload) - in every order
     out.append({"comp": "textfile", "cfg": {"states": T_STATES, "conf": {}},
                 "threads": [[["get", "alpha"]], [["write", 1]], [["get", "alpha"]]]})
@@ -204,7 +215,8 @@ def scenarios(rng, tier):
     for _ in range(2 if tier == "quick" else 30):
         ths = [[tf_op() for _ in range(rng.randrange(1, 3))] for _ in range(rng.choice([1, 2]))]
         ths.insert(rng.randrange(len(ths) + 1), [["write", rng.choice([1, 2])]])
-        out.append({"comp": "textfile", "cfg": {"states": T_STATES, "conf": {"find_first_match": rng.random() < 0.5}},
+        out.append({"comp": "textfile", "cfg": {"states": T_STATES, "conf": {"find_first_match": rng.random() < 0.5,
+                                                                              "cache_enabled": rng.random() < 0.6}},
                     "threads": ths})
     for _ in range(1 if tier == "quick" else 30):
         ths = [[["get", rng.choice(["alpha", "beta"])] for _ in range(rng.randrange(1, 3))] for _ in range(rng.choice([1, 2]))]
